@@ -185,9 +185,14 @@ def post_extint(ctx, args, kwargs, result):
                     (mu.noise_var or 0.0) * np.eye(Nr[k])
                 ev = np.linalg.eigvalsh(Re)
                 kapW = math.sqrt(ev[-1] / ev[0]) if ev[0] > 0 else float("inf")
+            # the library forms H_k M_k itself; when the kept stream direction is
+            # one where H_k is weak (the naive metric keeps arbitrary columns) the
+            # product carries a relative rounding error of eps ||H_k|| ||M_k|| / sigma_min
+            amp = max(1.0, float(np.linalg.norm(Hb[cr[k]:cr[k + 1]], 2)) * fro(Mk) /
+                      (sv[-1] if sv[-1] > 0 else 1e-300))
             ctx.within("extint-receive-filter",
                        fro(W_k @ Heq - np.eye(Mk.shape[1])),
-                       1024 * EPS * n * kap * kapW, "not-identity",
+                       1024 * EPS * n * kap * kapW * amp, "not-identity",
                        d(user=k, WH=W_k @ Heq, kappa=kap))
             # interference-aware reduction: external interference removed
             # completely when enough streams are sacrificed
